@@ -1,5 +1,5 @@
 """C06 Untrusted bytes never crash a parser — URC + UNW + LP over the parser scope, reviewed census of explicit panics."""
-import json, os, re, sys
+import collections, json, os, re, sys
 from gx import urc, unw, loops, lp
 from gx.flow import Flow
 from props import _c06_scope
@@ -14,7 +14,11 @@ EXPLANATION = ("Over every function of the parser crates/modules (about 2400 MIR
                "provenance (split_at(N), [..N], chunks_exact(N)); unwrapped usize->u32 narrowing of input lengths and `len() - x` need a dominating comparison; (3) every loop "
                "that is not a `for` makes progress on every path, self-recursion is depth-bounded or consumes input (listed); (4) every other explicit unwrap/expect and every "
                "assert!/panic!/unreachable! is on the reviewed list (rules/c06_*.json, one reason per site, keyed by function, produced by reading each site; sites judged "
-               "reachable by input are findings). It does not prove the absence of all panics: arithmetic overflow and arbitrary indexing by untainted values are not decided.")
+               "reachable by input are findings); (5) BND: every slice access (`x[a..b]`, `x[i]`, split_at) and checked subtraction in the scope - also those whose operands are "
+               "not decode-tainted - is either discharged by the LIN bounds prover (obligation E >= 0 as a linear form over symbolic lengths; facts from dominating comparisons, "
+               "searches on the same slice, is_empty/first/starts_with outcomes, earlier accesses) or on the reviewed list rules/c06_bounds.json (keyed by function and kind, counts "
+               "compared; a review may name a validation elsewhere that must still be present). It does not prove the absence of all panics: additions/multiplications that overflow "
+               "and panics inside callees outside the scope are not decided.")
 RULES = os.path.join(os.path.dirname(os.path.dirname(os.path.abspath(__file__))), "rules")
 EXTRA_SOURCES = re.compile(r"^(gix_utils::btoi::(to_signed|to_unsigned)(_with_radix)?)$")
 # self-recursive functions whose recursion is bounded by consumption of input / a finite structure (reviewed)
@@ -209,6 +213,50 @@ def run(db, chk):
     chk.ob("unwrap-reviewed", "%d sites on the reviewed list" % n_unw, True)
     chk.ob("panic-site-reviewed", "%d sites on the reviewed list" % n_pan, True)
     chk.assumptions.append("reviewed lists (rules/c06_unwraps.json, rules/c06_panics.json) were produced by reading each site; classes: safe / out-of-scope (not parsing) / panics (reported)")
+
+    # (5) BND: slice accesses and checked subtractions whose operands are NOT decode-tainted (URC does not see them): every `x[a..b]`, `x[i]`,
+    # split_at(mid) and `a - b` in the scope is either discharged by the LIN prover (gx/bnd.py) or on the reviewed list rules/c06_bounds.json
+    bounds_path = os.path.join(RULES, "c06_bounds.json")
+    if os.path.exists(bounds_path):
+        from gx import bnd
+        reviewed = collections.defaultdict(list)
+        for r in json.load(open(bounds_path))["reviewed"]:
+            reviewed[(r["function"], r["kind"])].append(r)
+        n_sites = n_proved = n_rev = 0
+        for f in fns:
+            pr = bnd.Prover(f)
+            obs = list(bnd.obligations(f, pr.ev))
+            pr.all_obligations = obs
+            left = collections.defaultdict(list)
+            for o in obs:
+                n_sites += 1
+                if o["forms"] is not None and all(pr.prove(e, o["block"]) for e in o["forms"]):
+                    n_proved += 1
+                else:
+                    left[o["kind"]].append(o)
+            for kind, sites in left.items():
+                revs = reviewed.get((f.name, kind), [])
+                for i_, r in enumerate(revs):
+                    if r.get("requires"):
+                        # the review rests on a structural precondition elsewhere (e.g. validation when the file is opened): it must still be there
+                        for frx, crx in r["requires"]:
+                            holders = [g for n_, g in byname.items() if re.search(frx, n_)]
+                            if not holders or not any(g.calls_to(crx) for g in holders):
+                                revs[i_] = dict(r, **{"class": "panics", "reason": "the precondition the review relied on is gone: %s must call %s; %s" % (frx, crx, r["reason"])})
+                bad = [r for r in revs if r["class"] == "panics"]
+                for r in bad:
+                    chk.ob("slice-access-bounded", "%s %s" % (f.name, kind), False, "reviewed: reachable by input — " + r["reason"][:220],
+                           "%s:%d" % (f.file, r.get("line", f.line)), key="bounds|%s|%s|%s" % (f.name, kind, r.get("tag", "1")))
+                ok_n = len([r for r in revs if r["class"] != "panics"])
+                n_rev += min(ok_n, len(sites))
+                if len(sites) > len(revs):
+                    s0 = sorted(sites, key=lambda o: o["line"])[-1]
+                    chk.ob("slice-access-bounded", "%s %s (%d site(s), %d reviewed)" % (f.name, kind, len(sites), len(revs)), False,
+                           "a slice access / subtraction in parser code is neither discharged by the bounds prover nor on the reviewed list: %s" % s0["what"][:160],
+                           "%s:%d" % (f.file, s0["line"]), key="bounds-unreviewed|%s|%s" % (f.name, kind))
+        chk.set("bnd", {"sites": n_sites, "proved": n_proved, "reviewed": n_rev})
+        chk.floor("BND slice-access / subtraction sites examined", n_sites, 350)
+        chk.ob("slice-access-bounded", "%d sites discharged by the prover, %d on the reviewed list" % (n_proved, n_rev), True)
 
 
 LEN_MINUS_OK = {
